@@ -93,11 +93,9 @@ def generate(doc):
 def under_oracle(doc, ka, kb):
     from vf.prelude import OrderedSet
 
-    count = [0]
-
     def hook(items):
-        count[0] += 1
-        return permute(items, ka + count[0] * kb)
+        # one oracle = (kb for 2-element sets, ka for larger ones)
+        return permute(items, kb if len(items) == 2 else ka)
 
     OrderedSet.order_hook = hook
     try:
@@ -141,8 +139,18 @@ def deterministic(name, ka1, kb1, ka2, kb2):
 
     doc = DOCS[name]
     if _tracing():
-        shim_all()
-        return under_oracle(doc, ka1, kb1) == under_oracle(doc, ka2, kb2)
+        from vf.common import realize
+        from crosshair.tracers import NoTracing
+
+        # the oracle indices are the only symbolic inputs: realise them (solver-forked enumeration of
+        # the oracle pairs), then generate concretely
+        from vf.common import concretize_int
+
+        ka1, ka2 = concretize_int(ka1, 0, 11), concretize_int(ka2, 0, 11)
+        kb1, kb2 = concretize_int(kb1, 0, 1), concretize_int(kb2, 0, 1)
+        with NoTracing():
+            shim_all()
+            return under_oracle(doc, ka1, kb1) == under_oracle(doc, ka2, kb2)
     # replay: real processes, real hash seeds
     outs = real_outputs(doc, range(64))
     return len(outs) == 1
@@ -158,7 +166,7 @@ def oracle_active(name, ka, kb):
     def hook(items):
         if len(items) >= 2:
             seen[0] += 1
-        return permute(items, ka + kb)
+        return permute(items, kb if len(items) == 2 else ka)
 
     OrderedSet.order_hook = hook
     try:
@@ -170,6 +178,17 @@ def oracle_active(name, ka, kb):
 
 # ------------------------------------------------------------------ AST scan of set sites
 INSENSITIVE_CALLS = {"sorted", "len", "bool", "any", "all", "min", "max", "sum", "frozenset", "set"}
+
+
+def _use_insensitive(node, parents):
+    par = parents.get(node)
+    if isinstance(par, ast.Compare) and any(isinstance(o, (ast.In, ast.NotIn)) for o in par.ops) and node in par.comparators:
+        return True
+    if isinstance(par, ast.Call) and isinstance(par.func, ast.Name) and par.func.id in INSENSITIVE_CALLS:
+        return True
+    if isinstance(par, (ast.If, ast.IfExp, ast.BoolOp, ast.UnaryOp, ast.While)):
+        return True
+    return False
 
 
 def scan_set_sites(root="/repo/statham"):
@@ -219,9 +238,16 @@ def scan_set_sites(root="/repo/statham"):
                     elif isinstance(par, (ast.If, ast.IfExp, ast.BoolOp, ast.UnaryOp)):
                         ok = True
                     elif isinstance(par, ast.Assign):
-                        # module-level constant used for membership only: check all uses are `in` / `&` with shimmed sets
                         names = [t.id for t in par.targets if isinstance(t, ast.Name)]
-                        ok = bool(names) and all(n.isupper() for n in names)
+                        if names and all(n.isupper() for n in names):
+                            ok = True  # module constant: uses are membership tests / operands of shimmed sets (scanned where used)
+                        elif names:
+                            # local variable: every use in the enclosing function must itself be order-insensitive
+                            fn = par
+                            while fn is not None and not isinstance(fn, (ast.FunctionDef, ast.Module)):
+                                fn = parents.get(fn)
+                            uses = [n for n in ast.walk(fn) if isinstance(n, ast.Name) and n.id in names and isinstance(n.ctx, ast.Load)]
+                            ok = bool(uses) and all(_use_insensitive(u, parents) for u in uses)
                     break
                 (insensitive if ok else unclassified).append(where)
     return covered, insensitive, unclassified
@@ -229,7 +255,7 @@ def scan_set_sites(root="/repo/statham"):
 
 def harnesses(ctx) -> List[H]:
     hs: List[H] = []
-    pre = ["0 <= ka1 < 12", "0 <= kb1 < 6", "0 <= ka2 < 12", "0 <= kb2 < 6"]
+    pre = ["0 <= ka1 < 12", "0 <= kb1 < 2", "0 <= ka2 < 12", "0 <= kb2 < 2"]
     for name in DOCS:
         hs.append(mk(f"c09_{name}", "ka1: int, kb1: int, ka2: int, kb2: int", pre, f"return deterministic({name!r}, ka1, kb1, ka2, kb2)", timeout=400, group="oracle",
                      tier="quick" if name in ("same_title_two_keywords", "definitions", "imports_many_kinds") else "thorough",
